@@ -781,13 +781,17 @@ impl AllowedHardware {
         status: &str,
         db: &GraphDatabaseService,
     ) -> Result<(), Error> {
-        let json = format!(
-            r#"{{ 
-                "{}": "{}",
-                "{}": "{}"
-            }}"#,
-            ALLOWED_HARDWARE_NAME_SHORT, name, ALLOWED_HARDWARE_STATUS_SHORT, status
+        //the name is provided by the remote device: it must be escaped by the JSON serialiser
+        let mut json_map = serde_json::Map::new();
+        json_map.insert(
+            ALLOWED_HARDWARE_NAME_SHORT.to_string(),
+            serde_json::Value::String(name.to_string()),
         );
+        json_map.insert(
+            ALLOWED_HARDWARE_STATUS_SHORT.to_string(),
+            serde_json::Value::String(status.to_string()),
+        );
+        let json = serde_json::to_string(&serde_json::Value::Object(json_map))?;
 
         let (reply, receive) = oneshot::channel::<Result<Option<Box<Node>>, rusqlite::Error>>();
         db.db
